@@ -2,7 +2,7 @@
 from contracts.gemini_eval import CLASSES
 
 META = dict(level="proof", trusted_base=["FX term interpreter (linkage through the installed packages and the real MRO, glue data-flow)", "own normal-form prover",
-                                         "softmax / argmax / scikit-learn validation contracts"])
+                                         "installed sklearn softmax under its own contract; argmax / scikit-learn validation contracts"])
 
 
 def tasks(tier, seed):
@@ -22,6 +22,8 @@ def tasks(tier, seed):
             t.append(("contracts.models_vjp", "task", (fam, tuple(s.items()), "", seed), to, f"shape {fam}{s}"))
     for c in (("linear", 1, 1, 1, 1, 1), ("mlp", 2, 1, 1, 2, 1), ("douglas", 2, 1, 2, 2, 1), ("sparse_mlp", 2, 2, 2, 2, 1)):
         t.append(("contracts.infer_local", "task", c + (seed,), to, f"_infer {c}"))
+    from contracts import external_deps
+    t += external_deps.softmax_tasks(tier, seed)
     return t
 
 
@@ -33,7 +35,7 @@ def extra(led, tier, seed):
     led.extend(rt_obligations.lattice_obligations(seed, tier))
     led.extend(rt_obligations.int_data_obligations(seed))
     led.extend(rt_obligations.offset_data_obligations(seed))
-    led.assume("A1", "A2", "A4", "A5: softmax rows are probability vectors; argmax over K columns lies in [0, K); scikit-learn validation accepts finite 2-D numeric data with enough samples",
+    led.assume("A1", "A2", "A4", "A5 (discharged for softmax): rows of the installed sklearn softmax are positive and sum to 1 (contracts/external_deps.py, real function on exact reals); assumed: argmax over K columns lies in [0, K); scikit-learn validation accepts finite 2-D numeric data with enough samples",
                "fit terminates: range(max_iter) x a finite generator (C10) x terminating third-party calls (ot.emd2, scikit-learn) -- termination of third-party code is assumed",
                "'every configuration the validation accepts' is covered deductively by (i) linkage / glue data-flow contracts for all classes, (ii) shape-safety of the numeric kernels at corner shapes "
                "and (iii) the C11 table 'every validated kernel / metric builds its GEMINI'; the cross product of options is sampled by the bounded lattice (B)")
